@@ -30,6 +30,8 @@ enum V {
     Stream(Vec<V>, u32),
     /// dictionary with these keys (generation order; the iteration order is observed at run time)
     Dict(Vec<V>),
+    /// dictionary literal with values `{k: v, …}` (keys distinct)
+    Map(Vec<(V, V)>),
 }
 
 #[derive(Clone, Debug)]
@@ -48,6 +50,7 @@ fn kind_of(v: &V) -> &'static str {
         V::Vector(_) => "vector",
         V::Stream(..) => "stream",
         V::Dict(_) => "dict",
+        V::Map(_) => "dict",
     }
 }
 
@@ -89,6 +92,7 @@ fn len_of(v: &V) -> usize {
         V::Vector(x) => x.len(),
         V::Stream(x, _) => x.len(),
         V::Dict(x) => x.len(),
+        V::Map(x) => x.len(),
         _ => 0,
     }
 }
@@ -110,6 +114,13 @@ fn canon_v(v: &V, dict_orders: &[(Vec<V>, String)]) -> String {
             format!("w{}[{}]", plen, all.join(","))
         }
         V::Stream(xs, _) => format!("stream[{}]", xs.iter().map(|x| canon_v(x, dict_orders)).collect::<Vec<_>>().join(",")),
+        V::Map(kvs) => format!(
+            "m[{}]",
+            kvs.iter()
+                .flat_map(|(k, v)| [canon_v(k, dict_orders), canon_v(v, dict_orders)])
+                .collect::<Vec<_>>()
+                .join(",")
+        ),
         V::Dict(ks) => {
             for (k2, observed) in dict_orders {
                 if k2 == ks {
@@ -188,6 +199,13 @@ fn src_v(v: &V, dict_vars: &[(Vec<V>, String)]) -> String {
                 )
             }
         }
+        V::Map(kvs) => format!(
+            "{{{}}}",
+            kvs.iter()
+                .map(|(k, v)| format!("{}: {}", src_v(k, dict_vars), src_v(v, dict_vars)))
+                .collect::<Vec<_>>()
+                .join(", ")
+        ),
         V::Dict(ks) => {
             for (k2, var) in dict_vars {
                 if k2 == ks {
@@ -262,7 +280,7 @@ fn arg_canon(a: &A, dict_orders: &[(Vec<V>, String)]) -> String {
     }
 }
 
-const INFIX: &[&str] = &["++", ".+", "+.", "..", ".*", "*.", "**", "^^"];
+const INFIX: &[&str] = &["++", ".+", "+.", "..", ".*", "*.", "**", "^^", "in", "not_in", "contains"];
 
 /// the Noulith expression of a call
 fn call_src(name: &str, args: &[A], dict_vars: &[(Vec<V>, String)]) -> String {
@@ -437,6 +455,9 @@ fn parse_v(s: &str) -> Option<V> {
         items(r).map(|x| V::Stream(x, 0))
     } else if let Some(r) = s.strip_prefix("range[") {
         items(r).map(|x| V::Stream(x, 1))
+    } else if let Some(r) = s.strip_prefix("m[") {
+        let xs = items(r)?;
+        Some(V::Map(xs.chunks(2).filter(|c| c.len() == 2).map(|c| (c[0].clone(), c[1].clone())).collect()))
     } else if let Some(r) = s.strip_prefix("wrapped") {
         let digits: String = r.chars().take_while(|c| c.is_ascii_digit()).collect();
         let code: u32 = digits.parse().ok()?;
@@ -984,14 +1005,117 @@ fn gen_case(rng: &mut Rng, which: usize, max_len: usize) -> Case {
             let sep = rng.pick(&[",", "a", "aa", "ab", "", ",,", "é", "a,"]).to_string();
             mk("split", vec![A::V(V::Str(t)), A::V(V::Str(sep))])
         }
-        _ => {
+        41 => {
             let n = gen_len(rng, 12);
             let t: String = (0..n).map(|_| *rng.pick(&['a', 'b', ' ', '\n', ' ', '\t', 'é', '\n', '\r'])).collect();
             mk(*rng.pick(&["words", "lines"]), vec![A::V(V::Str(t))])
         }
+        42 => mk(*rng.pick(&["uncons", "uncons?", "unsnoc", "unsnoc?"]), vec![sa]),
+        43 => match rng.below(3) {
+            0 => mk("count_distinct", vec![sa]),
+            1 => mk("count_distinct", vec![sa, keyf(rng, &s)]),
+            _ => mk("set", vec![sa]),
+        },
+        44 => match rng.below(3) {
+            0 => {
+                let n = gen_len(rng, 4);
+                let p = if rng.chance(1, 6) { Profile::Mixed } else { Profile::Lists };
+                let l = V::List(gen_elems(rng, n, p));
+                mk("mapmap", vec![A::V(l.clone()), mapf(rng, &l)])
+            }
+            1 => {
+                // rows of (mostly) two entries applied to a binary function
+                let n = gen_len(rng, 4);
+                let rows: Vec<V> = (0..n)
+                    .map(|_| {
+                        let m = if rng.chance(1, 6) { rng.below(4) as usize } else { 2 };
+                        if rng.chance(1, 8) {
+                            V::Str("ab".into())
+                        } else {
+                            { let pp = if rng.chance(1, 6) { Profile::Mixed } else { Profile::Ints }; V::List(gen_elems(rng, m, pp)) }
+                        }
+                    })
+                    .collect();
+                let l = V::List(rows);
+                mk("mapply", vec![A::V(l.clone()), comb(rng, &l)])
+            }
+            _ => mk("vector_map", vec![sa, mapf(rng, &s)]),
+        },
+        45 => {
+            let p = if rng.chance(1, 2) { Profile::Strs } else { Profile::Ints };
+            let k2 = *rng.pick(&["list", "list", "string", "stream", "dict", "vector", "bytes"]);
+            let a = gen_seq(rng, k2, p, max_len);
+            mk(*rng.pick(&["unwords", "unlines"]), vec![A::V(a)])
+        }
+        46 => {
+            let name = *rng.pick(&["in", "not_in", "contains"]);
+            let (needle, hay) = if rng.chance(1, 4) {
+                // text in text: substring search
+                let n = gen_len(rng, 6);
+                let t: String = (0..n).map(|_| *rng.pick(&['a', 'b', 'a', 'é', 'c'])).collect();
+                let p = rng.pick(&["", "a", "ab", "ba", "é", "aa", "éa", "abc"]).to_string();
+                (V::Str(p), V::Str(t))
+            } else if rng.chance(1, 12) {
+                (elem_mixed(rng), V::Int(5))
+            } else {
+                (elem_for(rng, &s), s.clone())
+            };
+            if name == "contains" {
+                mk(name, vec![A::V(hay), A::V(needle)])
+            } else {
+                mk(name, vec![A::V(needle), A::V(hay)])
+            }
+        }
+        47 => {
+            let n = gen_len(rng, 7);
+            let t: String = (0..n).map(|_| *rng.pick(&['a', 'b', 'a', 'é', '𝄞', 'c'])).collect();
+            let p = rng.pick(&["", "a", "ab", "ba", "é", "aa", "𝄞a", "c", "bc"]).to_string();
+            mk(*rng.pick(&["locate", "locate?"]), vec![A::V(V::Str(t)), A::V(V::Str(p))])
+        }
+        48 => mk(*rng.pick(&["keys", "values"]), vec![sa]),
+        49 => {
+            let n = gen_len(rng, 10);
+            let t: String = (0..n).map(|_| *rng.pick(&['a', 'b', ',', ',', 'a', 'é', ' '])).collect();
+            let sep = rng.pick(&[",", "a", "aa", "ab", "", ",,", "é", "a,"]).to_string();
+            let lim = V::Int(rng.range(-1, 5));
+            match rng.below(3) {
+                0 => mk("split", vec![A::V(V::Str(t)), A::V(V::Str(sep)), A::V(lim)]),
+                1 => mk("rsplit", vec![A::V(V::Str(t)), A::V(V::Str(sep))]),
+                _ => mk("rsplit", vec![A::V(V::Str(t)), A::V(V::Str(sep)), A::V(lim)]),
+            }
+        }
+        _ => {
+            // merge of 2-4 dictionaries, optionally with a combining function; call or chained form
+            let m = 2 + rng.below(3) as usize;
+            let mut args: Vec<A> = (0..m)
+                .map(|_| {
+                    let n = gen_len(rng, 4);
+                    let pp = if rng.chance(1, 4) { Profile::Mixed } else { Profile::Ints };
+                    let keys = dedup(gen_elems(rng, n, pp));
+                    let kvs: Vec<(V, V)> = keys.into_iter().map(|k| (k, if rng.chance(1, 6) { elem_mixed(rng) } else { V::Int(small_int(rng)) })).collect();
+                    A::V(V::Map(kvs))
+                })
+                .collect();
+            if rng.chance(1, 12) {
+                args[1] = A::V(V::List(vec![V::Int(1)]));
+            }
+            let has_f = rng.chance(1, 2);
+            if has_f {
+                args.push(comb(rng, &s));
+            }
+            if rng.chance(1, 3) {
+                let mut ops: Vec<&'static str> = vec!["merge"; m - 1];
+                if has_f {
+                    ops.push("with");
+                }
+                Case { name: "chain", args, sorted: false, chain: Some(ops) }
+            } else {
+                mk("merge", args)
+            }
+        }
     }
 }
-const N_FAMILIES: usize = 42;
+const N_FAMILIES: usize = 51;
 
 /// hand-picked boundary cases (past findings first)
 fn corpus() -> Vec<Case> {
@@ -1118,7 +1242,7 @@ fn key_of(c: &Case) -> String {
         .args
         .iter()
         .find_map(|a| match a {
-            A::V(v @ (V::List(_) | V::Str(_) | V::Bytes(_) | V::Vector(_) | V::Stream(..) | V::Dict(_))) => Some(kind_of(v)),
+            A::V(v @ (V::List(_) | V::Str(_) | V::Bytes(_) | V::Vector(_) | V::Stream(..) | V::Dict(_) | V::Map(_))) => Some(kind_of(v)),
             _ => None,
         })
         .unwrap_or("none");
@@ -1158,7 +1282,7 @@ fn main() {
                 Some(r) => (true, r),
                 None => (false, rest),
             };
-            const OPS: &[&str] = &["zip", "ziplongest", "with", "**"];
+            const OPS: &[&str] = &["zip", "ziplongest", "with", "**", "merge"];
             let (chain, rest): (Option<Vec<&'static str>>, &str) = match rest.strip_prefix("chain!") {
                 Some(r) => {
                     let mut p = r.splitn(2, ' ');
@@ -1207,7 +1331,7 @@ fn main() {
             .args
             .iter()
             .find_map(|a| match a {
-                A::V(v @ (V::List(_) | V::Str(_) | V::Bytes(_) | V::Vector(_) | V::Stream(..) | V::Dict(_))) => Some(v),
+                A::V(v @ (V::List(_) | V::Str(_) | V::Bytes(_) | V::Vector(_) | V::Stream(..) | V::Dict(_) | V::Map(_))) => Some(v),
                 _ => None,
             })
             .map(|v| (if matches!(v, V::Stream(_, c) if *c >= 2) { "stream(seq)" } else { kind_of(v) }, len_of(v)))
